@@ -150,6 +150,8 @@ class C15:
             for grp in groups:
                 gs = ctx.resolved_calls_to(f, grp, over=False)
                 gs = [s for s in gs if s.kind == "call"]
+                if not gs and grp == [st.methods["storage_commit"]]:
+                    continue        # a step that does not commit itself has no commit to keep inside the region (C07/C08 decide whether it must)
                 if not gs:
                     raise AnalysisError("%s no longer calls %s" % (spec, "/".join(short(g.qname) for g in grp)))
                 sites += gs
@@ -173,7 +175,14 @@ class C15:
                 if isinstance(n, ast.Attribute) and isinstance(n.ctx, (ast.Store, ast.Del)) and n.attr == "lock":
                     if _has_inst(ctx.res.type_of(f, n.value), self.state_q):
                         stores.append((f, n))
-        init = self.state_cls.methods["__init__"]
+        init0 = self.state_cls.methods["__init__"]
+        init = init0
+        if len(stores) == 1 and stores[0][0] is not init0:
+            # a construction helper is fine as long as nothing but the constructor can run it
+            h = stores[0][0]
+            callers = {s_.func.qname for s_ in ctx.callers(h)}
+            if callers == {init0.qname} and h.cls is self.state_cls:
+                init = h
         good = len(stores) == 1 and stores[0][0] is init
         detail = ""
         if good:
@@ -186,7 +195,7 @@ class C15:
             good = isinstance(val, ast.Call) and any(term == ("ext", "threading.RLock()") for term in t)
             detail = "lock = %s : %s" % (ast.unparse(val) if val is not None else "?", sorted(t))
         rep.check("C15.R3", "SyncState.lock", init, good, detail,
-                  "SyncState.lock must be created once in SyncState.__init__ by threading.RLock(); found %d store(s): %s %s" % (
+                  "SyncState.lock must be created once, during construction only, by threading.RLock() (a lock re-created later lets two threads hold 'the' lock at once); found %d store(s): %s %s" % (
                       len(stores), [ctx.line(f, n) for f, n in stores], detail))
 
     def thorough_notes(self):
